@@ -29,6 +29,7 @@ func init() {
 			"G12 top calls are deleted from the trim candidates in a later pass than the one adding children. " +
 			"G13 sets that let a loop or a recursive walk skip work are keyed by what the work depends on (declaration id, not bare name); G14 hasSideEffects recurses into every callable a pipeline calls, not only pipelines. " +
 			"G15 a verdict computed from Edit.Apply and carried out of a loop over the ASTs accumulates. " +
+			"G16 in removeRefFromExp an iteration ends without keeping the element only over an edge where shouldRemoveExpCallRef holds. " +
 			"NOT decided: that the edited program compiles, call-graph equality, round-trip of renames.",
 		Assumptions: commonAssumptions,
 	}
@@ -320,6 +321,7 @@ func runC19(c *an.Ctx) {
 	ruleMemoKeyL(c, "G13", true, "martian/syntax/refactoring")
 	ruleG14(c)
 	ruleG15(c)
+	ruleG16(c)
 
 	// ---------------- G2 ----------------
 	walkers := []struct {
